@@ -186,7 +186,12 @@ def run(prop, tier, replay=None):
     farm = Farm(12)
     try:
         if replay is not None:
-            recs = farm.run([replay['replay']['case']])
+            rc_ = replay['replay']['case']
+            if rc_.get('main_script'):
+                recs = [x for x in main_script_lives(ev) if x['case']['kind'] == rc_['kind'] and x['case']['main_script'] == rc_['main_script']
+                        and x['case']['args'] == rc_['args']]
+            else:
+                recs = farm.run([rc_])
             rec = recs[0]
             rec['id'] = 'replay'
             fails, _ = tlc.judge('LifeJudge', [_strip(rec)], name='replay')
@@ -284,6 +289,8 @@ def run(prop, tier, replay=None):
         results = base + farm.run(cases)
     finally:
         farm.close()
+    if prop == 'C01':
+        results += main_script_lives(ev)
 
     records, byid = [], {}
     for i, r in enumerate(results):
@@ -317,7 +324,7 @@ def run(prop, tier, replay=None):
         vmap = {}
         for rid in per:
             vmap[id(byid[rid]['case'])] = rid
-        todo = [v for v in fresh if id(v.replay.get('case')) in vmap][:16]
+        todo = [v for v in fresh if id(v.replay.get('case')) in vmap and not v.replay['case'].get('main_script')][:16]   # (runner-made lives are deterministic)
         farm2 = Farm(8)
         try:
             again = farm2.run([v.replay['case'] for v in todo for _ in range(2)])
@@ -489,6 +496,48 @@ def real_triple(r):
     return (seen, o['us_end'], o['stream']['end'])
 
 
+
+
+def main_script_lives(ev):
+    """C01's quantifier names outcomes 'of a class defined in the main script': those need a real main script, so they are
+    executed by the C02 runner (run as __main__) in the three kinds and projected onto the records LifeJudge reads."""
+    import subprocess
+    from ..common import PY, REPO, sub_scratch
+    runner = os.path.join(os.path.dirname(os.path.abspath(__file__)), '_c02_runner.py')
+    scns = []
+    for target, args in (('main_value', ('point',)), ('main_value', ('nested',)), ('main_raise', ('main_err',))):
+        scns.append({'id': 'm%d' % len(scns), 'target': target, 'where': 'main', 'args': list(args), 'kwargs': {}, 'kinds': ['thread', 'process', 'remote'],
+                     'factory': 'ctor', 'run': 'none', 'target_none': False, 'vclass': 'small', 'waitmode': 'once'})
+    d = sub_scratch('c01main')
+    inp, outp = os.path.join(d, 'in.json'), os.path.join(d, 'out.json')
+    json.dump(scns, open(inp, 'w'))
+    env = dict(os.environ, PYTHONPATH=':'.join([VERIF, REPO]), VERIF_REPO=REPO, PYTHONHASHSEED='0')
+    try:
+        subprocess.run([PY, runner, inp, outp], env=env, stdout=subprocess.DEVNULL, stderr=subprocess.DEVNULL, timeout=300)
+    except subprocess.TimeoutExpired:
+        raise MachineryError('main-script runner did not finish')
+    if not os.path.exists(outp):
+        raise MachineryError('main-script runner produced no output')
+    out = []
+    for rec in json.load(open(outp)):
+        ending = 'ret' if rec['scn']['direct'] == 'ret' else 'exc'
+        for kind, k in rec['obs']['kinds'].items():
+            dead = k.get('done') == 'T'
+            rd = {'alive': 'F', 'has_error': k.get('has_error', 'na'), 'result_n': 0,
+                  'result': 'own' if k.get('result_eq') == 'T' else 'None' if k.get('result_none') == 'T' else 'other',
+                  'error': 'own' if (k.get('error_type_eq') == 'T' and k.get('error_args_eq') == 'T') else 'None' if k.get('error_none') == 'T' else 'other'}
+            if rd['has_error'] not in ('T', 'F', 'None'):
+                rd = {'alive': 'F', 'has_error': 'raised', 'result': 'raised', 'result_n': 0, 'error': 'raised'}
+            out.append({'case': {'kind': kind, 'main_script': rec['meta']['target'], 'args': rec['meta']['args']},
+                        'scn': {'kind': kind, 'persistent': 'F', 'ending': ending, 'fault': 'none', 'landed': 'F', 'in_target': 'F', 'in_finally': 'F', 'in_try': 'F',
+                                'in_work': 'F', 'has_finally': 'F', 'target_started': 'T', 'target_finished': 'T', 'items': 0, 'n': 0,
+                                'file': '__main__', 'func': rec['meta']['target'], 'line': 0, 'region': 'none'},
+                        'obs': {'dead_observed': 'T' if dead else 'hung', 'term_ret': 'na', 'reads': [rd, rd, rd] if dead else [], 'fin_done': 'F', 'us_alive': 'na',
+                                'us_end': 'last', 'linger': 'na', 'restart_from': 'na', 'bystander': 'na', 'setter': 'rejected',
+                                'stream': {'got': [], 'end': 'na', 'again': 'na'}},
+                        'events_total': 0, 'events': None, 'where': None})
+    ev.cov['main_script_lives'] = len(out)
+    return out
 
 # ----------------------------------------------------------------------------------------------
 # code -> spec: control-flow traces of the real child run loops against OneShot.tla (spec/OneShotTrace.tla)
